@@ -723,34 +723,63 @@ example : intOpt (dictToParams [(kPredictor, .real 317 5)]) kPredictor = some 9 
 
 /-! ## CCITTFaxDecode: tabula's wrapper around x/image/ccitt -/
 
-/-- **ccitt_wrapper**: what `Decode()` does with `/Filter /CCITTFaxDecode` (or `/CCF`) and a
-`DecodeParms` dictionary, for every dictionary and all data: Columns (default 1728) below 1 or
-Rows (default 0) below 0 — after `getIntParam`, so also for Reals — is an error; otherwise the
-result is exactly what x/image/ccitt returns for Group 4 if K < 0 and Group 3 otherwise, Invert =
-BlackIs1 (only a boolean counts, default false), that width, and the height Rows or "detect" (-1)
-for Rows = 0. (The CCITT codes themselves are x/image/ccitt's business: a parameter.) -/
+/-- `Decode()` with `/Filter /CCITTFaxDecode` (or `/CCF`) and a `DecodeParms` dictionary is the wrapper
+`filters.CCITTFaxDecode` on `dictToParams` of that dictionary -/
+theorem ccitt_decode_is_wrapper (ext : Ext) (d : Dict) (kvs : Dict) (y : Str) (a : Bool)
+    (hf : dictGet d kFilter = some (.name (if a then nCCF else nCCITTFaxDecode)))
+    (hp : dictGet d kDecodeParms = some (.dict kvs)) :
+    streamDecodeD ext d y = ccittFaxDecode ext.ccitt y (some (toParams (dictToParams kvs))) := by
+  have hname : ∀ p, decodeWithFilter ext y (if a then nCCF else nCCITTFaxDecode) p = ccittFaxDecode ext.ccitt y p := by
+    intro p; cases a <;> rfl
+  unfold streamDecodeD
+  rw [hf, hp]
+  simp only [objToFilter, objToDParms, objToPObj, streamDecode, paramsObjToDict, hname]
+
+/-- the constant of `internal/filters/ccittfax.go`: `64 << 20` -/
+theorem maxCCITTOutput_value : maxCCITTOutput = 64 * 2 ^ 20 := by decide
+
+/-- **ccitt_wrapper** (restated after fix 6dc2783, which limits the decoded image to
+`maxCCITTOutput` = 64 MiB): what `Decode()` does with `/Filter /CCITTFaxDecode` (or `/CCF`) and a
+`DecodeParms` dictionary, for every dictionary and all data. Columns (default 1728) below 1 or
+Rows (default 0) below 0 — after `getIntParam`, so also for Reals — is an error (fix 0d4fd26; the
+tests come first, the library is not called). Otherwise x/image/ccitt is asked with Group 4 if
+K < 0 and Group 3 otherwise, Invert = BlackIs1 (only a boolean counts, default false), that width,
+and the height Rows or "detect" (-1) for Rows = 0, and its answer `lib` goes through `ccittLimit`.
+BEFORE the fix the third clause read `streamDecodeD ext d y = lib` for every input; that is no
+longer what the code does when the library yields more than 64 MiB, so it now carries the
+explicit hypothesis `out.length ≤ maxCCITTOutput` (fourth clause; beyond it see
+`ccitt_beyond_bound`). (The CCITT codes themselves are x/image/ccitt's business: a parameter.) -/
 theorem ccitt_wrapper (ext : Ext) (d : Dict) (kvs : Dict) (y : Str) (a : Bool)
     (hf : dictGet d kFilter = some (.name (if a then nCCF else nCCITTFaxDecode)))
     (hp : dictGet d kDecodeParms = some (.dict kvs)) :
     let ps := some (dictToParams kvs)
     let columns := getIntParam ps kColumns 1728
     let rows := getIntParam ps kRows 0
+    let lib := ext.ccitt { group4 := decide (getIntParam ps kK 0 < 0), invert := getBoolParam ps kBlackIs1 false,
+                           columns := columns, rows := if rows = 0 then -1 else rows } y
     (columns < 1 → streamDecodeD ext d y = none) ∧
     (rows < 0 → streamDecodeD ext d y = none) ∧
-    (1 ≤ columns → 0 ≤ rows → streamDecodeD ext d y =
-      ext.ccitt { group4 := decide (getIntParam ps kK 0 < 0), invert := getBoolParam ps kBlackIs1 false,
-                  columns := columns, rows := if rows = 0 then -1 else rows } y) := by
-  have hname : ∀ p, decodeWithFilter ext y (if a then nCCF else nCCITTFaxDecode) p = ccittFaxDecode ext.ccitt y p := by
-    intro p; cases a <;> rfl
-  have hdec : streamDecodeD ext d y = ccittFaxDecode ext.ccitt y (some (toParams (dictToParams kvs))) := by
-    unfold streamDecodeD
-    rw [hf, hp]
-    simp only [objToFilter, objToDParms, objToPObj, streamDecode, paramsObjToDict, hname]
+    (1 ≤ columns → 0 ≤ rows → streamDecodeD ext d y = ccittLimit lib) ∧
+    (1 ≤ columns → 0 ≤ rows → (∀ out, lib = some out → out.length ≤ maxCCITTOutput) →
+      streamDecodeD ext d y = lib) := by
+  have hdec := ccitt_decode_is_wrapper ext d kvs y a hf hp
   have hcols : (toParams (dictToParams kvs)).columns.getD 1728 = getIntParam (some (dictToParams kvs)) kColumns 1728 := rfl
   have hrows : (toParams (dictToParams kvs)).rows.getD 0 = getIntParam (some (dictToParams kvs)) kRows 0 := rfl
   have hk : (toParams (dictToParams kvs)).k.getD 0 = getIntParam (some (dictToParams kvs)) kK 0 := rfl
   have hb : (toParams (dictToParams kvs)).blackIs1.getD false = getBoolParam (some (dictToParams kvs)) kBlackIs1 false := rfl
-  refine ⟨?_, ?_, ?_⟩
+  have h3 : 1 ≤ getIntParam (some (dictToParams kvs)) kColumns 1728 → 0 ≤ getIntParam (some (dictToParams kvs)) kRows 0 →
+      streamDecodeD ext d y = ccittLimit (ext.ccitt
+        { group4 := decide (getIntParam (some (dictToParams kvs)) kK 0 < 0),
+          invert := getBoolParam (some (dictToParams kvs)) kBlackIs1 false,
+          columns := getIntParam (some (dictToParams kvs)) kColumns 1728,
+          rows := if getIntParam (some (dictToParams kvs)) kRows 0 = 0 then -1
+                  else getIntParam (some (dictToParams kvs)) kRows 0 } y) := by
+    intro h1 h2
+    rw [hdec]
+    have n1 : ¬ (getIntParam (some (dictToParams kvs)) kColumns 1728 < 1) := by omega
+    have n2 : ¬ (getIntParam (some (dictToParams kvs)) kRows 0 < 0) := by omega
+    simp only [ccittFaxDecode, Option.getD_some, hcols, hrows, hk, hb, n1, n2, if_false]
+  refine ⟨?_, ?_, h3, ?_⟩
   · intro h
     rw [hdec]
     simp only [ccittFaxDecode, Option.getD_some, hcols, h, if_true]
@@ -758,17 +787,221 @@ theorem ccitt_wrapper (ext : Ext) (d : Dict) (kvs : Dict) (y : Str) (a : Bool)
     rw [hdec]
     simp only [ccittFaxDecode, Option.getD_some, hcols, hrows, h, if_true]
     split <;> rfl
-  · intro h1 h2
-    rw [hdec]
-    have n1 : ¬ (getIntParam (some (dictToParams kvs)) kColumns 1728 < 1) := by omega
-    have n2 : ¬ (getIntParam (some (dictToParams kvs)) kRows 0 < 0) := by omega
-    simp only [ccittFaxDecode, Option.getD_some, hcols, hrows, hk, hb, n1, n2, if_false]
+  · intro h1 h2 hle
+    rw [h3 h1 h2]
+    cases hl : ext.ccitt
+        { group4 := decide (getIntParam (some (dictToParams kvs)) kK 0 < 0),
+          invert := getBoolParam (some (dictToParams kvs)) kBlackIs1 false,
+          columns := getIntParam (some (dictToParams kvs)) kColumns 1728,
+          rows := if getIntParam (some (dictToParams kvs)) kRows 0 = 0 then -1
+                  else getIntParam (some (dictToParams kvs)) kRows 0 } y with
+    | none => rfl
+    | some out => exact ccittLimit_within out (hle out hl)
 
 /-- non-vacuity: `<< /K -1 /Columns 8.5 /BlackIs1 true >>` is read as Group 4, width 8, inverted,
-height to be detected -/
+height to be detected; an answer within the limit is handed on -/
 example : ccittFaxDecode (fun a _ => if a = { group4 := true, invert := true, columns := 8, rows := -1 } then some [7] else none)
     [1, 2] (some (toParams (dictToParams [(kK, .int (-1)), (kColumns, .real 17 1), (kBlackIs1, .bool true)]))) = some [7] := by
   decide
+
+/-- **ccitt_beyond_bound** (fix 6dc2783, the answer beyond the bound): when the image x/image/ccitt
+would yield for the arguments of `ccitt_wrapper` has more than `maxCCITTOutput` bytes — one byte
+more suffices, the comparison is `>` — `Decode()` returns an error: nothing is truncated, no bytes
+are handed on. -/
+theorem ccitt_beyond_bound (ext : Ext) (d : Dict) (kvs : Dict) (y : Str) (a : Bool)
+    (hf : dictGet d kFilter = some (.name (if a then nCCF else nCCITTFaxDecode)))
+    (hp : dictGet d kDecodeParms = some (.dict kvs)) (out : Str)
+    (hcol : 1 ≤ getIntParam (some (dictToParams kvs)) kColumns 1728)
+    (hrow : 0 ≤ getIntParam (some (dictToParams kvs)) kRows 0)
+    (hlib : ext.ccitt { group4 := decide (getIntParam (some (dictToParams kvs)) kK 0 < 0),
+                        invert := getBoolParam (some (dictToParams kvs)) kBlackIs1 false,
+                        columns := getIntParam (some (dictToParams kvs)) kColumns 1728,
+                        rows := if getIntParam (some (dictToParams kvs)) kRows 0 = 0 then -1
+                                else getIntParam (some (dictToParams kvs)) kRows 0 } y = some out)
+    (hbig : out.length > maxCCITTOutput) :
+    streamDecodeD ext d y = none := by
+  have h := (ccitt_wrapper ext d kvs y a hf hp).2.2.1 hcol hrow
+  rw [h, hlib]
+  exact ccittLimit_beyond out hbig
+
+/-- the edge of the bound where it is computable: an image of exactly `maxCCITTOutput` = 67108864
+bytes is handed on, one of 67108865 bytes is an error (the lists are not evaluated: the proofs go
+through `List.length_replicate`) -/
+example : ccittLimit (some (List.replicate 67108864 0)) = some (List.replicate 67108864 0) :=
+  ccittLimit_within _ (by rw [List.length_replicate]; decide)
+example : ccittLimit (some (List.replicate 67108865 0)) = none :=
+  ccittLimit_beyond _ (by rw [List.length_replicate]; decide)
+example : ccittLimit (some (List.replicate 67108863 255)) = some (List.replicate 67108863 255) :=
+  ccittLimit_within _ (by rw [List.length_replicate]; decide)
+/-- the same edge through `Decode()`: `<< /Filter /CCF /DecodeParms << /K -1 /Columns 8 >> >>` with a
+library that answers `n` zero bytes -/
+example : streamDecodeD { inflate := fun _ => none, ccitt := fun _ _ => some (List.replicate 67108864 0) }
+    [(kFilter, .name nCCF), (kDecodeParms, .dict [(kK, .int (-1)), (kColumns, .int 8)])] [255]
+    = some (List.replicate 67108864 0) := by
+  rw [(ccitt_wrapper _ _ [(kK, .int (-1)), (kColumns, .int 8)] [255] true rfl rfl).2.2.1 (by decide) (by decide)]
+  exact ccittLimit_within _ (by rw [List.length_replicate]; decide)
+example : streamDecodeD { inflate := fun _ => none, ccitt := fun _ _ => some (List.replicate 67108865 0) }
+    [(kFilter, .name nCCF), (kDecodeParms, .dict [(kK, .int (-1)), (kColumns, .int 8)])] [255] = none :=
+  ccitt_beyond_bound _ _ [(kK, .int (-1)), (kColumns, .int 8)] [255] true rfl rfl
+    (List.replicate 67108865 0) (by decide) (by decide) rfl (by rw [List.length_replicate]; decide)
+
+/-- **ccitt_stage_bounded** (bounded work, both fixes): whenever a CCITT stage of `Decode()` — under
+either name, with ANY parameters, at any place of a filter chain — yields bytes, (1) they are at most
+`maxCCITTOutput`; (2) they are the library's answer for some arguments with width ≥ 1 and
+height = "detect" (-1) or ≥ 1: the library is never asked for a row of zero pixels (which consumes
+no input: the endless loop 0d4fd26 removed) nor for a negative height. -/
+theorem ccitt_stage_bounded (ext : Ext) (name : Str) (params : Option Params) (inp out : Str)
+    (hn : name = nCCITTFaxDecode ∨ name = nCCF)
+    (h : decodeWithFilter ext inp name params = some out) :
+    out.length ≤ maxCCITTOutput ∧
+    ∃ args : CcittArgs, ext.ccitt args inp = some out ∧ 1 ≤ args.columns ∧ (args.rows = -1 ∨ 1 ≤ args.rows) := by
+  have hd : decodeWithFilter ext inp name params = ccittFaxDecode ext.ccitt inp params := by
+    rcases hn with hn | hn <;> subst hn <;> rfl
+  rw [hd] at h
+  unfold ccittFaxDecode at h
+  simp only at h
+  split at h
+  · exact absurd h (by simp)
+  · split at h
+    · exact absurd h (by simp)
+    · rename_i hc hr
+      rw [ccittLimit_some_iff] at h
+      refine ⟨h.2, _, h.1, ?_, ?_⟩
+      · show 1 ≤ (params.getD {}).columns.getD 1728
+        omega
+      show ((if (params.getD {}).rows.getD 0 = 0 then (-1 : Int) else (params.getD {}).rows.getD 0) = -1 ∨
+        1 ≤ (if (params.getD {}).rows.getD 0 = 0 then (-1 : Int) else (params.getD {}).rows.getD 0))
+      split
+      · exact Or.inl rfl
+      · exact Or.inr (by omega)
+
+/-- **ccitt_library_guarded** (fix 0d4fd26 as a fact about every input): the result of `CCITTFaxDecode`
+does not depend on what the library would do for a width below 1, a height of 0 or a height below
+-1 — for no parameters and no data is it asked such a thing (a row of zero pixels consumes no
+input: that was the endless loop). -/
+theorem ccitt_library_guarded (rd : CcittArgs → Str → Option Str) (data : Str) (params : Option Params) :
+    ccittFaxDecode (fun a x => if 1 ≤ a.columns ∧ (a.rows = -1 ∨ 1 ≤ a.rows) then rd a x else none) data params
+      = ccittFaxDecode rd data params := by
+  unfold ccittFaxDecode
+  simp only
+  split
+  · rfl
+  · split
+    · rfl
+    · rename_i hc hr
+      rw [if_pos]
+      refine ⟨by omega, ?_⟩
+      split
+      · exact Or.inl rfl
+      · exact Or.inr (by omega)
+
+/-- a chain of filters whose last one is CCITT (e.g. `[/ASCII85Decode /CCITTFaxDecode]`, the usual way
+a fax image is embedded): the decoded stream has at most `maxCCITTOutput` bytes -/
+theorem ccitt_chain_bounded (ext : Ext) (dp : DParms) (name : Str) (hn : name = nCCITTFaxDecode ∨ name = nCCF) :
+    ∀ (fs : List FObj) (i : Nat) (data out : Str),
+      decodeChain ext dp (fs ++ [.name name]) i data = some out → out.length ≤ maxCCITTOutput := by
+  intro fs
+  induction fs with
+  | nil =>
+    intro i data out h
+    simp only [List.nil_append, decodeChain] at h
+    cases hs : decodeWithFilter ext data name (chainParams dp i) with
+    | none => rw [hs] at h; exact absurd h (by simp)
+    | some o =>
+      rw [hs] at h
+      simp only [Option.some.injEq] at h
+      subst h
+      exact (ccitt_stage_bounded ext name _ data o hn hs).1
+  | cons f fs ih =>
+    intro i data out h
+    cases f with
+    | other => simp [decodeChain] at h
+    | name n =>
+      simp only [List.cons_append, decodeChain] at h
+      cases hs : decodeWithFilter ext data n (chainParams dp i) with
+      | none => rw [hs] at h; exact absurd h (by simp)
+      | some o => rw [hs] at h; exact ih (i + 1) o out h
+
+/-- **ccitt_decode_bounded** (bounded work at the entry point): for EVERY stream dictionary whose
+`Filter` is `/CCITTFaxDecode` or `/CCF` (whatever `DecodeParms` holds — dictionary, array, null,
+absent, anything) or an array ending in one of them, and for all data: if `Decode()` returns
+bytes, they are at most `maxCCITTOutput` = 64 MiB — however large `/Columns` and however long the
+image the data stands for. -/
+theorem ccitt_decode_bounded (ext : Ext) (d : Dict) (y out : Str) (name : Str)
+    (hn : name = nCCITTFaxDecode ∨ name = nCCF)
+    (hf : dictGet d kFilter = some (.name name) ∨
+          ∃ fs : List Obj, dictGet d kFilter = some (.array (fs ++ [.name name])))
+    (h : streamDecodeD ext d y = some out) : out.length ≤ maxCCITTOutput := by
+  unfold streamDecodeD at h
+  rcases hf with hf | ⟨fs, hf⟩
+  · rw [hf] at h
+    simp only [objToFilter, streamDecode] at h
+    exact (ccitt_stage_bounded ext name _ y out hn h).1
+  · rw [hf] at h
+    simp only [objToFilter, streamDecode, List.map_append, List.map_cons, List.map_nil, objToFObj] at h
+    exact ccitt_chain_bounded ext _ name hn _ 0 y out h
+
+/-- **ccitt_bytes_kept_bounded** (bounded work for every input): of whatever the library's reader
+would yield — `out`, of any length — `CCITTFaxDecode` keeps (`io.LimitReader`) a prefix of at most
+`maxCCITTOutput + 1` bytes and never more than there are. -/
+theorem ccitt_bytes_kept_bounded (out : Str) :
+    (ccittKept out).length ≤ maxCCITTOutput + 1 ∧ (ccittKept out).length ≤ out.length ∧
+    ccittKept out <+: out := by
+  refine ⟨?_, ?_, List.take_prefix _ _⟩
+  · rw [ccittKept_length]; omega
+  · rw [ccittKept_length]; omega
+
+/-- the library cut to the bytes `io.LimitReader` lets through -/
+def cutExt (ext : Ext) : Ext := { inflate := ext.inflate, ccitt := fun a x => (ext.ccitt a x).map ccittKept }
+
+theorem decodeWithFilter_cut (ext : Ext) (data name : Str) (p : Option Params) :
+    decodeWithFilter (cutExt ext) data name p = decodeWithFilter ext data name p := by
+  unfold decodeWithFilter
+  split
+  · rfl
+  · split
+    · rfl
+    · split
+      · rfl
+      · split
+        · rfl
+        · split
+          · rfl
+          · split
+            · simp only [cutExt, ccittFaxDecode]
+              split
+              · rfl
+              · split
+                · rfl
+                · exact ccittLimit_prefix _
+            · rfl
+
+/-- **ccitt_reads_prefix_only**: for every dictionary and all data, `Decode()` depends on the library's
+answers only through their first `maxCCITTOutput + 1` bytes — the rest of an oversized image is
+never read. (This is also what lets the harness supply, for images far beyond the bound, the first
+64 MiB + 1 bytes of the library's answer instead of all of it.) -/
+theorem ccitt_reads_prefix_only (ext : Ext) (d : Dict) (y : Str) :
+    streamDecodeD (cutExt ext) d y = streamDecodeD ext d y := by
+  have hchain : ∀ (dp : DParms) (fs : List FObj) (i : Nat) (data : Str),
+      decodeChain (cutExt ext) dp fs i data = decodeChain ext dp fs i data := by
+    intro dp fs
+    induction fs with
+    | nil => intro i data; rfl
+    | cons f fs ih =>
+      intro i data
+      cases f with
+      | other => rfl
+      | name n =>
+        simp only [decodeChain, decodeWithFilter_cut]
+        cases decodeWithFilter ext data n (chainParams dp i) with
+        | none => rfl
+        | some o => exact ih (i + 1) o
+  unfold streamDecodeD streamDecode
+  split
+  · rfl
+  · exact decodeWithFilter_cut ext _ _ _
+  · rfl
+  · exact hchain _ _ 0 y
 
 /-! ## histories of `Decode()` calls -/
 
